@@ -636,4 +636,15 @@ theorem interpolator_grid_num_covers (xmin xmax : Rat) {num : Nat} (hn : 2 ≤ n
       linarith
     rw [h1]; field_simp; ring
 
+/-- classic and JAX implementations are the same function of `x` (model level): uniform with `scale = b − a`, Laplace with
+    `loc = 0`; normal / log-normal share the formula `normal`/`lognormal` and `lognormal_moments` agree (see
+    `strictMono_lognormal_prior`) -/
+theorem classic_eq_jax (h : StdNormal Φ Φinv) {logΦ : ℝ → ℝ} (hlog : ∀ x, logΦ x = log (Φ x)) (a b α x : ℝ) :
+    uniformCl Φ a (b - a) x = uniformPriorRe Φ a b x ∧ laplaceCl Φ 0 α x = laplaceRe logΦ α x := by
+  constructor
+  · simp only [uniformCl, uniformPriorRe, uniformRe]; ring
+  · have hx := quantile_laplace_cl h 0 α (h.pos x) (h.lt_one x)
+    rw [h.left_inv] at hx
+    rw [hx, laplaceRe_eq h hlog]; ring
+
 end NiftyVerif.C30
